@@ -39,35 +39,57 @@ Theorem C05_fifo_no_deadlock :
 Proof. exact fifo_no_deadlock. Qed.
 Print Assumptions C05_fifo_no_deadlock.
 
-(* Stream.buffer(n) never wedges for n >= 3: for every source that raises only ordinary exceptions (at any position),
+(* Stream.buffer(n) never wedges, for every n >= 1: for every source that raises only ordinary exceptions (at any position),
    every position at which the consumer stops early (or none), and every interleaving of the worker thread and the
-   consuming thread, a state in which neither can move is a final state (iterator closed, worker finished). The bound
-   3 is exact: after the consumer's drain saw the queue empty the worker can still put the element it holds, the
-   STOPPED marker and the exception; the refutations below exhibit the hang for n = 1 (and ./check C05 replays the
-   n = 2 schedule on the implementation). *)
-Theorem C05_buffer3_no_deadlock :
+   consuming thread, a state in which neither can move is a final state (iterator closed, worker finished).
+   [drain_join = true] is the finalizer as repaired (repair C: it keeps draining the queue while it waits for the worker). *)
+Theorem C05_buffer_no_deadlock :
+  forall (g : Buffer.cfg) (sched : list Buffer.label),
+  BufferLive.no_base (Buffer.src g) -> 1 <= Buffer.maxsize g -> Buffer.drain_join g = true ->
+  Buffer.deadlocked g (run Buffer.step g (Buffer.init g) sched) = false.
+Proof. exact BufferLive.buffer_no_deadlock. Qed.
+Print Assumptions C05_buffer_no_deadlock.
+
+(* ... and the finalizer's loop ends: once the stop flag is set the worker has at most four steps left, each of its steps uses
+   one up, and it can always take a step when the queue has room - which the drain provides. *)
+Theorem C05_buffer_worker_runs_out :
+  forall (g : Buffer.cfg) (s s' : Buffer.state) e,
+  Buffer.stopped s = true -> Buffer.step_w g s = Some (s', e) ->
+  Buffer.stopped s' = true /\ BufferLive.steps_left (Buffer.wp s') < BufferLive.steps_left (Buffer.wp s).
+Proof. exact BufferLive.worker_step_after_stop_uses_one_up. Qed.
+Print Assumptions C05_buffer_worker_runs_out.
+Theorem C05_buffer_worker_can_move_when_room :
+  forall (g : Buffer.cfg) (s : Buffer.state),
+  length (Buffer.q s) < Buffer.maxsize g -> Buffer.w_finished s = false -> Buffer.wp s <> Buffer.WIdle ->
+  Buffer.step_w g s <> None.
+Proof. exact BufferLive.worker_can_move_when_room. Qed.
+Print Assumptions C05_buffer_worker_can_move_when_room.
+
+(* The finalizer before the repair (drain once, then join without a limit) needed three slots ... *)
+Theorem C05_buffer3_no_deadlock_before_repair :
   forall (g : Buffer.cfg) (sched : list Buffer.label),
   BufferLive.no_base (Buffer.src g) -> 3 <= Buffer.maxsize g ->
   Buffer.deadlocked g (run Buffer.step g (Buffer.init g) sched) = false.
-Proof. exact BufferLive.buffer_no_deadlock. Qed.
-Print Assumptions C05_buffer3_no_deadlock.
+Proof. exact BufferLive.buffer3_no_deadlock_before_repair. Qed.
+Print Assumptions C05_buffer3_no_deadlock_before_repair.
 
-(* Refutation of "no hang" for buffer(1) with an early break: _finalize drains and then joins, while
-   the worker still has to put the element it holds and the end marker into a queue of size 1. *)
-Theorem C05_buffer1_break_no_deadlock_refuted :
+(* ... and hung with fewer: buffer(1) with an early break - _finalize drained and then joined, while the worker still had to
+   put the element it held and the end marker into a queue of size 1. The same schedule ends with the repaired finalizer. *)
+Theorem C05_buffer1_break_before_repair_refuted :
   exists (g : Buffer.cfg) (sched : list Buffer.label),
-    Buffer.maxsize g = 1 /\ Buffer.deadlocked g (run Buffer.step g (Buffer.init g) sched) = true.
+    Buffer.maxsize g = 1 /\ Buffer.drain_join g = false /\
+    Buffer.deadlocked g (run Buffer.step g (Buffer.init g) sched) = true.
 Proof.
   exists {| Buffer.maxsize := 1;
             Buffer.src := [Buffer.SData 0; Buffer.SData 1; Buffer.SData 2; Buffer.SData 3];
-            Buffer.stop_after := Some 1 |}.
+            Buffer.stop_after := Some 1; Buffer.drain_join := false |}.
   exists [Buffer.C; Buffer.W; Buffer.W; Buffer.W; Buffer.C; Buffer.C;   (* 0 handed over; consumer breaks *)
           Buffer.W; Buffer.W;                                           (* worker holds 1, passed the stop test *)
           Buffer.C; Buffer.C;                                           (* set stopped; queue seen empty *)
           Buffer.W; Buffer.W; Buffer.W].                                (* put 1; pull 2; sees stop; blocks on put(FINISHED) *)
-  split; [reflexivity | vm_compute; reflexivity].
+  split; [reflexivity | split; [reflexivity | vm_compute; reflexivity]].
 Qed.
-Print Assumptions C05_buffer1_break_no_deadlock_refuted.
+Print Assumptions C05_buffer1_break_before_repair_refuted.
 
 (* Refutation for a source that raises a BaseException (StopRequested): the feeder dies without
    leaving a marker and the consumer blocks in get() forever. *)
